@@ -140,3 +140,286 @@ HEARTBEAT_FRAME = bytes([TYPE_HEARTBEAT, 0, 0, 0, 0, 0, 0, FRAME_END])
 
 def protocol_header(st, major, minor, revision):
     return cat(st, b'AMQP', b'\x00', be(st, 1, major), be(st, 1, minor), be(st, 1, revision))
+
+
+# ---------------------------------------------------------------- strings
+def utf8_ok(st, rope):
+    """Is this octet string valid UTF-8?  (bool or term; assumption A4)"""
+    if isinstance(rope, (bytes, bytearray)):
+        try:
+            bytes(rope).decode('utf-8')
+            return True
+        except UnicodeDecodeError:
+            return False
+    segs = [s for s in st.expand(rope.segs) if not (isinstance(s, Chunk) and st.must(s.len == 0))]
+    if not segs:
+        return True
+    return sym.utf8_valid(st.name_rope(segs).t)
+
+
+def utf8_str(st, rope):
+    """The str a valid UTF-8 octet string denotes (use under utf8_ok)."""
+    if isinstance(rope, (bytes, bytearray)):
+        return bytes(rope).decode('utf-8')
+    segs = [s for s in st.expand(rope.segs) if not (isinstance(s, Chunk) and st.must(s.len == 0))]
+    if not segs:
+        return ''
+    c = st.name_rope(segs)
+    s = sym.utf8_dec(c.t)
+    st.str_facts(s)
+    st.assume(z3.Implies(sym.utf8_valid(c.t), z3.And(sym.encodable(s), sym.utf8(s) == c.t)))
+    return sym.SStr(s)
+
+
+def str_utf8(st, s):
+    """UTF-8 octets of an encodable str."""
+    if isinstance(s, str):
+        return s.encode('utf-8')
+    t = st.str_term(s)
+    return SBytes([st.new_chunk(term=sym.utf8(t))])
+
+
+def str_encodable(st, s):
+    if isinstance(s, str):
+        try:
+            s.encode('utf-8')
+            return True
+        except UnicodeEncodeError:
+            return False
+    return sym.encodable(st.str_term(s))
+
+
+def short_string(st, s):
+    """shortstr: length octet + UTF-8 octets (at most 255)."""
+    u = str_utf8(st, s)
+    return cat(st, be(st, 1, blen(st, u)), u)
+
+
+def long_string(st, s):
+    u = str_utf8(st, s)
+    return cat(st, be(st, 4, blen(st, u)), u)
+
+
+# ---------------------------------------------------------------- abstract field tables / arrays / timestamps / floats
+# Uninterpreted specification functions; their unfoldings (the field-table
+# grammar) are supplied when the table codecs themselves are verified.
+Obj = sym.ObjS
+enc_table = z3.Function('enc_table', Obj, z3.BoolSort(), sym.BytesS)        # full encoding incl. 4-octet length
+table_encodable = z3.Function('table_encodable', Obj, z3.BoolSort(), z3.BoolSort())
+enc_array = z3.Function('enc_array', Obj, z3.BoolSort(), sym.BytesS)
+array_encodable = z3.Function('array_encodable', Obj, z3.BoolSort(), z3.BoolSort())
+wf_table = z3.Function('wf_table', sym.BytesS, z3.BoolSort())                 # a grammar-valid table encoding
+dec_table = z3.Function('dec_table', sym.BytesS, Obj)                         # the dict it denotes
+wf_array = z3.Function('wf_array', sym.BytesS, z3.BoolSort())
+dec_array = z3.Function('dec_array', sym.BytesS, Obj)
+norm_value = z3.Function('norm_value', Obj, Obj)                              # documented normalisation (C03)
+dict_nonempty = z3.Function('dict_nonempty', Obj, z3.BoolSort())
+EMPTY_DICT = z3.Const('empty_dict', Obj)
+# timestamps: instant in whole seconds since the epoch of a datetime / struct_time read as UTC
+dt_seconds = z3.Function('dt_seconds', Obj, z3.IntSort())
+dt_of_seconds = z3.Function('dt_of_seconds', z3.IntSort(), Obj)               # aware UTC datetime of that instant
+dt_of_millis = z3.Function('dt_of_millis', z3.IntSort(), Obj)
+dt_representable = z3.Function('dt_representable', z3.IntSort(), z3.BoolSort())
+
+
+decimal_of = z3.Function('decimal_of', z3.IntSort(), z3.IntSort(), Obj)       # (unscaled, scale) -> Decimal
+
+ROUNDTRIP_AXIOM = ('dec_table(enc_table(d, legacy)) == norm_value(d) and enc_table(d, legacy) is a grammar-valid table '
+                   '(the table round trip: decided by the field-table contracts of C03, assumed by their callers)')
+
+
+def table_bytes(st, d, legacy):
+    """Encoding of a non-empty, encodable dict-valued table argument: an opaque
+    specification function with the shape every table has (4-octet length, then
+    that many octets)."""
+    t = enc_table(d.t, sym.B(legacy))
+    c = st.new_chunk(term=t)
+    key = ('table_bytes', t.get_id())
+    if key not in st.facts_done:
+        st.facts_done.add(key)
+        ls = [st.new_byte('tlen') for _ in range(4)]
+        body = st.new_chunk('tbody')
+        st.refine_chunk(c, ls + [body])
+        st.assume(z3.And(sym.I(uint(ls)) == body.len, body.len > 0, wf_table(t), dec_table(t) == norm_value(d.t)))
+    return SBytes([c])
+
+
+# ---------------------------------------------------------------- method arguments (AMQP 0-9-1 4.2.5: field packing)
+INT_RANGES = {'octet': (0, 255, 1, False), 'short': (0, 2 ** 16 - 1, 2, False), 'long': (0, 2 ** 32 - 1, 4, False),
+              'longlong': (-2 ** 63, 2 ** 63 - 1, 8, True)}
+
+
+def _nonempty(v):
+    from pyvc.contract import obj_nonempty
+    return obj_nonempty(v.t)
+
+
+def bits_octet(st, bits):
+    """Consecutive bit fields share an octet, first field in the least significant bit."""
+    if all(isinstance(b, bool) for b in bits):
+        return sum((1 << k) for k, b in enumerate(bits) if b)
+    return mk_int(z3.Sum([z3.If(sym.B(b), 2 ** k, 0) for k, b in enumerate(bits)]))
+
+
+def field_ok(st, wire_type, v, legacy):
+    """Is v (typed per I1) encodable as this wire type?"""
+    from pyvc.dsl import conj, in_range, lt
+    if wire_type in INT_RANGES:
+        lo, hi, _, _ = INT_RANGES[wire_type]
+        return in_range(v, lo, hi)
+    if wire_type == 'bit':
+        return True
+    if wire_type in ('shortstr', 'longstr'):
+        limit = 256 if wire_type == 'shortstr' else 2 ** 32
+        return conj(str_encodable(st, v), lt(blen(st, str_utf8(st, v)), limit))
+    if wire_type == 'table':
+        if v is None or isinstance(v, dict):
+            return True
+        return z3.Or(z3.Not(_nonempty(v)), table_encodable(v.t, sym.B(legacy)))
+    if wire_type == 'timestamp':
+        return in_range(SInt(dt_seconds(v.t)), 0, 2 ** 64 - 1)
+    raise EngineError('field_ok: %s' % wire_type)
+
+
+def field_bytes(st, wire_type, v, legacy):
+    if wire_type in INT_RANGES:
+        lo, hi, width, signed = INT_RANGES[wire_type]
+        return (sbe if signed else be)(st, width, v)
+    if wire_type == 'shortstr':
+        return short_string(st, v)
+    if wire_type == 'longstr':
+        return long_string(st, v)
+    if wire_type == 'table':
+        if v is None or (isinstance(v, dict) and not v):
+            return b'\x00\x00\x00\x00'
+        if not st.branch(_nonempty(v), 'spec:table-nonempty'):
+            return b'\x00\x00\x00\x00'
+        return table_bytes(st, v, legacy)
+    if wire_type == 'timestamp':
+        return be(st, 8, SInt(dt_seconds(v.t)))
+    raise EngineError('field_bytes: %s' % wire_type)
+
+
+def args_wire(st, fields, values, legacy):
+    """Method arguments in specification order."""
+    parts = []
+    bits = []
+
+    def flush():
+        if bits:
+            parts.append(be(st, 1, bits_octet(st, list(bits))))
+            del bits[:]
+    for name, wire_type in fields:
+        if wire_type == 'bit':
+            bits.append(values[name])
+            if len(bits) == 8:
+                flush()
+        else:
+            flush()
+            parts.append(field_bytes(st, wire_type, values[name], legacy))
+    flush()
+    return cat(st, *parts) if parts else b''
+
+
+# ---------------------------------------------------------------- reference decoder for method arguments
+def parse_table(st, rest):
+    """Reference reading of a field table at the head of `rest`:
+    -> (consumed, value, condition) or None when the octets are not there."""
+    a = peek(st, rest, 4)
+    if a is None:
+        return None
+    n = uint(a)
+    total = mk_int(sym.I(n) + 4)
+    if not st.branch(sym.I(blen(st, rest)) >= sym.I(total), 'spec:table-present'):
+        return None
+    if isinstance(n, int):
+        if n == 0:
+            return 4, {}, True
+    elif st.branch(sym.I(n) == 0, 'spec:table-empty'):
+        return 4, {}, True
+    w = st.name_rope(st.to_rope(sub(st, rest, 0, total)).segs, 'wtable')
+    return total, sym.SOpaque('dict', dec_table(w.t)), wf_table(w.t)
+
+
+def args_parse(st, fields, data):
+    """Reference decoder for method arguments (grammar 4.2.5), for *any* octet
+    string: -> (values, consumed, condition) or None when the octets run out.
+    `condition` collects what cannot be decided structurally (UTF-8 validity of
+    short strings, grammar validity of embedded tables)."""
+    from pyvc.dsl import conj
+    values = {}
+    conds = []
+    box = {'rest': data, 'consumed': 0, 'bitpos': 0, 'octet': None}
+
+    def advance(k):
+        box['rest'] = sub(st, box['rest'], k, None)
+        box['consumed'] = mk_int(sym.I(box['consumed']) + sym.I(k))
+
+    def end_bits():
+        if box['octet'] is not None:
+            advance(1)
+        box['bitpos'], box['octet'] = 0, None
+
+    for name, wire_type in fields:
+        rest = box['rest']
+        if wire_type == 'bit':
+            if box['octet'] is None or box['bitpos'] == 8:
+                end_bits()
+                a = peek(st, box['rest'], 1)
+                if a is None:
+                    return None
+                box['octet'] = a[0]
+            o = box['octet']
+            if isinstance(o, int):
+                values[name] = bool(o & (1 << box['bitpos']))
+            else:
+                values[name] = sym.mk_bool(st.bits_of(o, 8)[box['bitpos']])
+            box['bitpos'] += 1
+            continue
+        end_bits()
+        rest = box['rest']
+        if wire_type in INT_RANGES:
+            lo, hi, width, signed = INT_RANGES[wire_type]
+            a = peek(st, rest, width)
+            if a is None:
+                return None
+            values[name] = (st.unpack_sint if signed else st.unpack_uint)(list(a))
+            advance(width)
+        elif wire_type in ('shortstr', 'longstr'):
+            width = 1 if wire_type == 'shortstr' else 4
+            a = peek(st, rest, width)
+            if a is None:
+                return None
+            n = uint(a)
+            total = mk_int(sym.I(n) + width)
+            if not st.branch(sym.I(blen(st, rest)) >= sym.I(total), 'spec:string-present'):
+                return None
+            k = sub(st, rest, width, total)
+            ok = utf8_ok(st, k)
+            if wire_type == 'shortstr':
+                if ok is False:
+                    return None             # not a short string at all
+                conds.append(ok)
+                if ok is not True and not st.can(sym.B(ok)):
+                    return None             # already known not to be UTF-8 on this path
+                values[name] = utf8_str(st, k)
+            else:
+                if ok is True or (ok is not False and st.branch(ok, 'spec:longstr-is-utf8')):
+                    values[name] = utf8_str(st, k)
+                else:
+                    values[name] = k        # not UTF-8: the raw octets
+            advance(total)
+        elif wire_type == 'table':
+            r = parse_table(st, rest)
+            if r is None:
+                return None
+            total, value, cond = r
+            conds.append(cond)
+            if cond is not True and not st.can(sym.B(cond)):
+                return None
+            values[name] = value
+            advance(total)
+        else:
+            raise EngineError('args_parse: %s' % wire_type)
+    end_bits()
+    return values, box['consumed'], conj(*conds)
